@@ -322,7 +322,8 @@ struct ReplyWorld : World {
 	// ---- layer L2: two real connections (stream backend) that both send requests and serve the peer's
 	void gen_conn(Rng &r, Plan &p, int tier) {
 		p.set("layer", 2);
-		p.set("idlen", r.chance(1, 8) ? 0 : r.range(1, 4));      // width 0: a connection without ids, everything is one-way
+		p.set("idlen", r.chance(1, 8) ? 0 : r.chance(1, 10) ? r.range(5, 9) : r.range(1, 4));      // width 0: a connection without ids, everything is one-way; 9: wider than any id value
+		p.set("forge", r.chance(1, 4));
 		static const int caps[] = {5, 32, 4096, 4096};
 		p.set("chancap", r.pick(caps));
 		bool syncm = r.chance(1, 3);
@@ -424,7 +425,7 @@ struct ReplyWorld : World {
 	}
 	void exec_conn(const Plan &p, Log &log, Stats &st) {
 		ConnCtx C; C.log = &log; C.st = &st; CCp = &C;
-		unsigned idlen = C.idlen = (unsigned) std::min<int64_t>(std::max<int64_t>(p.get("idlen", 2), 0), 8);
+		unsigned idlen = C.idlen = (unsigned) std::min<int64_t>(std::max<int64_t>(p.get("idlen", 2), 0), 9);
 		size_t chancap = (size_t) std::min<int64_t>(std::max<int64_t>(p.get("chancap", 4096), 1), 1 << 20);
 		bool use_sync = p.get("sync") != 0, big = p.get("big") != 0;
 		int ab = simio::new_chan(chancap), ba = simio::new_chan(chancap);
@@ -519,7 +520,20 @@ struct ReplyWorld : World {
 				outcome = Q.sent;
 				break;
 			}
-			case OP_DELIVER: { size_t n = simio::deliver(P.wchan, (size_t) std::max<int64_t>(op.c, 1)); log.ev("DELIVER from %s: %zu", P.name, n); if (n == 1) st.hit("fault:single_byte_delivery"); else if (n) st.hit("fault:segment_cut"); outcome = n > 0; break; }
+			case OP_DELIVER: {
+				if (p.get("forge") && idlen && ((uint64_t) op.a & 0xf000) == 0x7000) {
+					// the network slips in a frame nobody sent: marked as reply, with an id no request has (for width 9: one that does not fit 64 bits).
+					// It may be refused or dropped; it must not reach any requester's handler. Only at a frame boundary of the byte stream.
+					simio::Chan *c = simio::chan(P.wchan);
+					bool boundary = !c->wire.empty() ? c->wire.back() == 0 : (!c->avail.empty() && c->avail.back() == 0);
+					if (boundary) {
+						Bytes m(idlen); for (unsigned k = 0; k < idlen; ++k) m[k] = (uint8_t) (0xfe - k); m[0] = (uint8_t) (0x80 | 0x7e);
+						m.push_back((uint8_t) msgtype::Answer); m.push_back(0); m.push_back('f'); m.push_back('g');
+						Bytes fr = ref::encode(ref::COBS, m); for (uint8_t b : fr) c->wire.push_back(b);
+						log.ev("FORGED reply frame of %zu bytes (id width %u) towards %s", fr.size(), idlen, C.peer[side ^ 1].name); st.hit("fault:forged_reply_frame");
+					}
+				}
+				size_t n = simio::deliver(P.wchan, (size_t) std::max<int64_t>(op.c, 1)); log.ev("DELIVER from %s: %zu", P.name, n); if (n == 1) st.hit("fault:single_byte_delivery"); else if (n) st.hit("fault:segment_cut"); outcome = n > 0; break; }
 			case OP_SERVE: outcome = serve(side, alloc_fault(op, FL_ALLOC), (op.a & 0xf00) == 0x300) >= 0; break;
 			case OP_FLUSH: if (op.fault) st.hit(std::string("fault:writev_") + FAULTS[op.fault]); flush(side, op.fault, op.fa); outcome = 1; break;
 			case OP_DREPLY2: {
